@@ -1,18 +1,17 @@
-\* C11: one caller, three generations, server closes / resets at every instant, dial failures
+\* trap for the fourth transmission: one caller, four generations, the server only reads and closes
 SPECIFICATION EagerSpec
 CONSTANTS
   NC = 1
-  NG = 3
+  NG = 4
   RecvTerm = TRUE
   FixDead = TRUE
   SafeClose = TRUE
   CloseTx = FALSE
   ErrBuf = 1
-  DialMayFail = TRUE
+  DialMayFail = FALSE
   WithClose = FALSE
   MayCancel = FALSE
   DialedAtStart = TRUE
-  MayReset = TRUE
+  MayReset = FALSE
   MaySrvClose = TRUE
-INVARIANTS Safety Recovers
 CHECK_DEADLOCK FALSE
